@@ -570,6 +570,59 @@ ALIAS_OFLAGS = [["--ojson", "--jvquoteall"], ["--ojsonl", "--jvquoteall"], ["--o
                 ["--ocsv", "--quote-original"] if False else ["--otsv"], ["--opprint", "--right"]]
 
 
+ALIAS_SOURCES_COLL = [
+    lambda r: ["fill-down", "-f", "m"],
+    lambda r: ["fill-down", "-a", "-f", "m"],
+    lambda r: ["fill-down", "--only-if-blank", "-f", "m"],
+    lambda r: ["fill-down", "-a"],
+    lambda r: ["put", "is_present($m) && is_map($m) { @last = $m } is_absent($m) || is_empty($m) { $m = @last }"],
+    lambda r: ["put", "begin { @d = {\"hits\": 0, \"tags\": [0, 0]} } if (!is_map($m)) { $m = @d }"],
+    lambda r: ["put", "$n = $m"],
+    lambda r: ["put", "-q", "@recs[NR] = $*; end { emit @recs, \"NR\" }"],
+    lambda r: ["unsparsify"],
+    lambda r: ["step", "-a", "shift", "-f", "m"] if False else ["tac"],
+    lambda r: ["count-similar", "-g", "a"],
+    lambda r: ["repeat", "-n", "2"],
+    lambda r: ["bootstrap"] if False else ["cat", "-n"],
+]
+
+ALIAS_USERS_COLL = [
+    lambda r: ["put", "if (is_map($m)) { $m[\"hits\"] += 1 }"],
+    lambda r: ["put", "if (is_map($m)) { $m[\"tags\"][1] = NR }"],
+    lambda r: ["put", "if (is_map($m)) { $m[\"seen\"] = $i } if (is_map($n)) { $n[\"seen2\"] = $i }"],
+    lambda r: ["put", "if (is_map($m)) { unset $m[\"hits\"] }"],
+    lambda r: ["put", "if (is_map($m)) { $m[\"tags\"][2] .= \"x\" }"],
+    lambda r: ["put", "if (is_map($n)) { $n[\"hits\"] = -1 }"],
+    lambda r: ["put", "for (k, v in $*) { if (is_map(v)) { $[k][\"mark\"] = NR } }"],
+    lambda r: ["sort-within-records", "-r"],
+    lambda r: ["flatten"],
+    lambda r: ["cat"],
+]
+
+
+def alias_coll_case(r, tier):
+    """Map- and array-valued fields: a stage that copies a field from one record to another must copy the collection,
+    not share it - a later stage edits collections in place."""
+    n = r.choice([3, 8, 20, 60, 700])
+    recs = []
+    for k in range(n):
+        rec = {"a": r.choice(VOCAB_A), "i": r.randint(0, 40)}
+        z = r.random()
+        if z < 0.4 or k == 0:
+            rec["m"] = {"hits": r.randint(0, 9), "tags": [r.randint(0, 9), "t%d" % k]}
+        elif z < 0.6:
+            rec["m"] = ""
+        recs.append(rec)
+    import json as _json
+    text = "[\n" + ",\n".join(_json.dumps(x) for x in recs) + "\n]\n"
+    verbs = [r.choice(ALIAS_SOURCES_COLL)(r)]
+    for _ in range(r.randint(1, 2)):
+        verbs.append(r.choice(ALIAS_USERS_COLL)(r))
+    args = ["mlr", "--ijson", r.choice(["--ojson", "--ojsonl", "--ojson", "--oxtab"])] + chain_args(verbs) + ["in0.txt"]
+    return {"kind": "alias", "args": args, "files": {"in0.txt": text}, "cseed": r.randint(1, 1 << 40), "nconf": 5 if tier == "quick" else 8,
+            "force_preempt": [2, 5, 20, 100]}
+
+
 def alias_cases(rng, tier):
     """A stage that may hand the same value object to many records, then stages (and a writer) that read, retype, format
     or modify record values: whatever one stage does to the value in one record must not show in another record, for
@@ -578,6 +631,9 @@ def alias_cases(rng, tier):
     while True:
         i += 1
         r = rng.fork("alias", i)
+        if r.chance(0.4):
+            yield alias_coll_case(r, tier)
+            continue
         n = r.choice([2, 5, 12, 40, 600, 1300])
         recs = []
         for k in range(n):
